@@ -242,41 +242,82 @@ def chain_direct_sum_rule(chk, src):
     fi = src.func(MP, "MatrixProduct.add")
     N = 4
 
-    class D:
-        def __init__(self, name):
-            self.name = name
+    class BA(Sym):
+        """array known by its blocks: shape (concrete sizes) and the regions that hold (all of) a named operand tensor; everything else is zero"""
+        _is_ndarray = True
 
-        def __add__(self, o):
-            return D(f"{self.name}+{o.name}")
+        def __init__(self, shape, blocks=()):
+            super().__init__("array")
+            self.shape, self.blocks = tuple(int(x) for x in shape), list(blocks)
 
-        def __eq__(self, o):
-            return isinstance(o, D) and self.name == o.name
+        @property
+        def ndim(self):
+            return len(self.shape)
 
-        def __hash__(self):
-            return hash(self.name)
+        @property
+        def dtype(self):
+            return "dt"
 
-        def __repr__(self):
-            return self.name
-
-    class Site(Sym):
-        def __init__(self, who, i, rank):
-            super().__init__(f"{who}[{i}]")
-            names = ["l", "p", "r"] if rank == 3 else ["l", "pu", "pd", "r"]
-            self.shape = tuple(D(f"{x}{i}" if x.startswith("p") else f"{who}.{x}{i}") for x in names)
-
-        def __getitem__(self, k):
-            return self
-
-    class Block(Sym):
-        def __init__(self, shape):
-            super().__init__("zeros")
-            self.shape, self.stores = list(shape), []
+        def _ranges(self, k):
+            k = k if isinstance(k, tuple) else (k,)
+            if Ellipsis in k:
+                i = k.index(Ellipsis)
+                k = k[:i] + (slice(None),) * (len(self.shape) - len(k) + 1) + k[i + 1:]
+            k = k + (slice(None),) * (len(self.shape) - len(k))
+            if len(k) != len(self.shape):
+                raise IndexError(f"too many indices for an array of {len(self.shape)} axes")
+            out = []
+            for x, n in zip(k, self.shape):
+                if not isinstance(x, slice):
+                    raise AnalysisError(f"index {x!r} in a block assignment is not modelled")
+                st, sp, step = x.indices(n)
+                if step != 1:
+                    raise AnalysisError("strided block assignment")
+                out.append((st, max(st, sp)))
+            return tuple(out)
 
         def __setitem__(self, k, v):
-            self.stores.append((tuple((x.start, x.stop) if isinstance(x, slice) else x for x in k), v))
+            rg = self._ranges(k)
+            if not isinstance(v, BA):
+                raise AnalysisError(f"block assignment of {v!r}")
+            if tuple(b_ - a_ for a_, b_ in rg) != v.shape:
+                raise ValueError(f"could not broadcast input array from shape {v.shape} into shape {tuple(b_ - a_ for a_, b_ in rg)}")
+            for vr, src_ in v.blocks:
+                self.blocks.append((tuple((a_ + x0, a_ + x1) for (a_, _), (x0, x1) in zip(rg, vr)), src_))
+
+        def __getitem__(self, k):
+            try:
+                if self._ranges(k) == tuple((0, n) for n in self.shape):
+                    return self
+            except AnalysisError:
+                pass
+            raise AnalysisError(f"reading a part of a site tensor ({k!r}) is not modelled in this run")
+
+    def join(parts, axis):
+        parts = list(parts)
+        nd = parts[0].ndim
+        axis = axis % nd
+        for p_ in parts:
+            if not isinstance(p_, BA) or p_.ndim != nd or any(p_.shape[j] != parts[0].shape[j] for j in range(nd) if j != axis):
+                raise ValueError(f"all the input array dimensions except for the concatenation axis must match exactly: {[getattr(q, 'shape', q) for q in parts]}")
+        shape = list(parts[0].shape)
+        shape[axis] = sum(p_.shape[axis] for p_ in parts)
+        out, off = BA(shape), 0
+        for p_ in parts:
+            for rg, src_ in p_.blocks:
+                out.blocks.append((tuple((a_ + off, b_ + off) if j == axis else (a_, b_) for j, (a_, b_) in enumerate(rg)), src_))
+            off += p_.shape[axis]
+        return out
+    SIZES = {"self": [1, 2, 3, 5, 1], "other": [1, 7, 11, 13, 1]}
+    PHYS = [17, 19, 23, 29]
+    PHYS2 = [31, 37, 41, 43]
+
+    def site(who, i, rank):
+        shape = (SIZES[who][i],) + ((PHYS[i],) if rank == 3 else (PHYS[i], PHYS2[i])) + (SIZES[who][i + 1],)
+        return BA(shape, [(tuple((0, n) for n in shape), f"{who}[{i}]")])
     for form, rank in (("mps", 3), ("mpo", 4)):
-        A = [Site("self", i, rank) for i in range(N)]
-        B = [Site("other", i, rank) for i in range(N)]
+        A = [site("self", i, rank) for i in range(N)]
+        B = [site("other", i, rank) for i in range(N)]
         new_sites = {}
 
         class New(Sym):
@@ -298,27 +339,29 @@ def chain_direct_sum_rule(chk, src):
                 super().__init__("concat(" + ",".join(parts) + ")")
                 self.parts, self.shape = list(parts), ("n", "q")
         it = SymInterp(src, None, {"np": OpenSym("np", all=lambda x: True, concatenate=lambda l, axis=None: Cat([repr(x) for x in l]), zeros=lambda shape, dtype=None: Sym("zero-label", shape=("one", "q"))),
-                                   "backend": Blob("backend"), "dstack": lambda l: ("join", 2, [repr(x) for x in l]), "vstack": lambda l: ("join", 0, [repr(x) for x in l]),
-                                   "concatenate": lambda l, axis=None: ("join", axis, [repr(x) for x in l]), "zeros": lambda shape, dtype=None: Block(shape)})
+                                   "backend": Blob("backend"), "dstack": lambda l: join(l, 2), "vstack": lambda l: join(l, 0), "hstack": lambda l: join(l, 1),
+                                   "concatenate": lambda l, axis=0: join(l, axis), "zeros": lambda shape, dtype=None: BA(shape)})
         out = it.call_function(fi, [me, other])
-        last_axis = rank - 1
         probs = []
-        if new_sites.get(0) != ("join", last_axis, ["self[0]", "other[0]"]):
-            probs.append(f"first site: {new_sites.get(0)}")
-        if new_sites.get(N - 1) != ("join", 0, [f"self[{N - 1}]", f"other[{N - 1}]"]):
-            probs.append(f"last site: {new_sites.get(N - 1)}")
-        for i in range(1, N - 1):
-            b = new_sites.get(i)
-            if not isinstance(b, Block):
-                probs.append(f"site {i}: {b!r}")
-                continue
+        for i in range(N):
+            got = new_sites.get(i)
             la, lb, ra, rb = A[i].shape[0], B[i].shape[0], A[i].shape[-1], B[i].shape[-1]
-            phys = list(A[i].shape[1:-1])
-            want_shape = [la + lb] + phys + [ra + rb]
-            full = (None, None)
-            want_stores = [(((None, la),) + tuple(full for _ in phys) + ((None, ra),), A[i]), (((la, None),) + tuple(full for _ in phys) + ((ra, None),), B[i])]
-            if b.shape != want_shape or [(k, v) for k, v in b.stores] != want_stores:
-                probs.append(f"site {i}: shape {b.shape}, blocks {[(k, repr(v)) for k, v in b.stores]}")
+            phys = A[i].shape[1:-1]
+            full = tuple((0, n) for n in phys)
+            if i == 0:
+                want_shape, want = (la,) + phys + (ra + rb,), {f"self[{i}]": ((0, la),) + full + ((0, ra),), f"other[{i}]": ((0, lb),) + full + ((ra, ra + rb),)}
+            elif i == N - 1:
+                want_shape, want = (la + lb,) + phys + (ra,), {f"self[{i}]": ((0, la),) + full + ((0, ra),), f"other[{i}]": ((la, la + lb),) + full + ((0, rb),)}
+            else:
+                want_shape, want = (la + lb,) + phys + (ra + rb,), {f"self[{i}]": ((0, la),) + full + ((0, ra),), f"other[{i}]": ((la, la + lb),) + full + ((ra, ra + rb),)}
+            if not isinstance(got, BA):
+                probs.append(f"site {i}: {got!r}")
+                continue
+            blocks = {}
+            for rg, src_ in got.blocks:
+                blocks.setdefault(src_, []).append(rg)
+            if got.shape != want_shape or {k_: v_ for k_, v_ in blocks.items()} != {k_: [v_] for k_, v_ in want.items()}:
+                probs.append(f"site {i}: shape {got.shape}, blocks {blocks}; expected shape {want_shape}, blocks {want}")
         qn = getattr(out, "qn", None)
         okq = isinstance(qn, list) and len(qn) == N + 1 and all(getattr(qn[b], "parts", None) == [f"selfqn{b}", f"otherqn{b}"] for b in range(1, N)) and repr(qn[0]) == "zero-label" and repr(qn[-1]) == "zero-label"
         okc = calls == [("move_qnidx", "other.qnidx")] and getattr(out, "to_right", None) == "other.to_right" and out is new
